@@ -249,7 +249,7 @@ def u2(cx):
             fn = F.impl_fn(im, 'unsubscribe')
             g = cx.graph(fn['key'])
             us = [x for x in g.nodes if x['kind'] == 'call' and x['name'] in UNSUB_NAMES]
-            ok = bool(us) and (want is None or all(want in g.vias(x) for x in us))
+            ok = bool(us) and (want is None or all('!take' in access_path(x['args'][0])[1] for x in us))
             res.append(Finding(ID, 'U2', cx.label(fn), ok, 'unsubscribes its content' if ok else 'does not unsubscribe its content', fn['span']))
     # SubscriptionGuard::drop
     for im in F.impls_of('std::ops::Drop'):
@@ -273,9 +273,10 @@ def u3(cx):
         n += 1
         fn = F.impl_fn(im, 'unsubscribe')
         g = cx.graph(fn['key'])
+        slot = 'self.' + roles.field_where(cx, roles.impl_tag(cx, im), lambda t, ti: t['k'] == 'adt' and t['p'] in ('rc::MutRc', 'rc::MutArc'), 'slot')
 
         def ev(x):
-            if x['kind'] == 'call' and x['name'] in TAKE and x['args'] and recv_class(x['args'][0]) == 'self.0':
+            if x['kind'] == 'call' and x['name'] in TAKE and x['args'] and recv_class(x['args'][0]) == slot:
                 return ('take',)
             return None
         bad = lang_check(g, 'take', ev, exact=True, empty_ok=False)
